@@ -392,6 +392,8 @@ def check(case, cc):
                 continue
             if kinds[i] == 'valid' and (r.exception or r.ignored or r.las_count < 1):
                 sig = 'ignored' if r.ignored else (solo_why[i][0] if solo_why[i] else 'no-las-written')
+                if solo_why[i] and 'None of the channels' in solo_why[i][1] and 'is in Log Pass' in solo_why[i][1]:
+                    sig = 'failed:lis-implied-x-pass-holds-none-of-the-requested-channels'   # see C11
                 dev(O_VALID, 'valid-file:' + sig, '%s: valid file %r on its own: %r %s' % (what, names[i], r, solo_why[i][1] if solo_why[i] else ''))
             if kinds[i] in ('foreign', 'empty') and not (r.exception or r.ignored):
                 dev(O_BAD, '%s-file-converted' % kinds[i], '%s: %s file %r (%s) reported as converted: %r' % (what, kinds[i], names[i], files[i]['fmt'], r))
